@@ -394,9 +394,43 @@ func c11CollectSyms(objs []amlObj, table int, out *[]c11Sym) {
 	}
 }
 
+// refElems replaces some scalar elements of a package by references to named
+// objects (never methods: a method name inside a package is ambiguous in AML)
+// that ACPI's search rules find from the package's scope.
+func (g *c11Gen) refElems(d *amlData, datas []c11Sym) {
+	if d == nil || d.K != "package" || len(datas) == 0 {
+		return
+	}
+	for i := range d.Elems {
+		e := &d.Elems[i]
+		if e.K == "package" {
+			g.refElems(e, datas)
+			continue
+		}
+		if e.K == "buffer" || rapid.IntRange(0, 3).Draw(g.t, "pkgref") != 0 {
+			continue
+		}
+		g.stats.pkgRefs++
+		*e = amlData{K: "nameref", S: []byte(datas[rapid.IntRange(0, len(datas)-1).Draw(g.t, "pkgrefto")].name)}
+	}
+}
+
+func (g *c11Gen) visibleData(scope string, table int, syms []c11Sym) []c11Sym {
+	var datas []c11Sym
+	for _, s := range syms {
+		if s.table <= table && !s.method && c11Visible(s.scope, scope) {
+			datas = append(datas, s)
+		}
+	}
+	return datas
+}
+
 func (g *c11Gen) fillBodies(objs []amlObj, table int, syms []c11Sym) {
 	for i := range objs {
 		o := &objs[i]
+		if o.K == "name" && o.Data != nil && o.Data.K == "package" {
+			g.refElems(o.Data, g.visibleData(c11ScopeOfAbs(o.Abs), table, syms))
+		}
 		if o.K == "method" {
 			scope := c11ScopeOfAbs(o.Abs)
 			var methods, datas []c11Sym
@@ -778,6 +812,7 @@ func TestVerifC11(t *testing.T) {
 		add(g.stats.hugePkg > 0, "package-longer-than-1MiB")
 		add(g.stats.methodDecls > 0, "object-declared-in-method-body")
 		add(g.stats.rootScopes > 0, "scope-directive-naming-the-root")
+		add(g.stats.pkgRefs > 0, "package-element-naming-an-object")
 		labels = append(labels, fmt.Sprintf("tables=%d", g.stats.tables))
 		st.Case(c, (g.stats.scopeDirectives > 0 || g.stats.relocated > 0) && g.stats.callsWithArgs > 0, labels...)
 		if fail != nil && strings.HasPrefix(fail.Msg, "VERIF-HARNESS") {
